@@ -51,6 +51,10 @@ fn main() {
             }
             0
         }
+        Some("mirror-hash") => {
+            println!("{}", bridge::mirror_hash_now(Path::new("/repo")));
+            0
+        }
         Some("workload") => {
             let (progs, nh) = programs::build_workload(Path::new("/repo"), simcore::env_seed(), 200);
             println!("{} programs, {} harvested", progs.len(), nh);
@@ -147,7 +151,7 @@ fn check(args: &[String]) -> i32 {
     let (n_generated, max_runs, wall_cap, det_sample, bridge_sessions) = if tier == "thorough" {
         (12_000usize, 1_200_000u64, 420.0, 2_000u64, 20_000usize)
     } else {
-        (1_800usize, 36_000u64, 45.0, 200u64, 600usize)
+        (1_800usize, 24_000u64, 45.0, 200u64, 800usize)
     };
     let max_runs = std::env::var("SESSIM_MAX_RUNS").ok().and_then(|s| s.parse().ok()).unwrap_or(max_runs);
 
@@ -412,7 +416,7 @@ fn replay(args: &[String]) -> i32 {
         }
     };
     if doc["kind"] == "real-bridge" {
-        return bridge::replay(&doc);
+        return bridge::replay(&doc, file);
     }
     let plan = Plan::from_json(&doc["plan"]);
     let exe = std::env::current_exe().expect("current_exe");
